@@ -307,13 +307,15 @@ theorem reduce_congr (op : α → α → α) (init : Option α) (a b : Arr α) (
   congr 1
   exact List.map_congr_left (fun i hi => hab.2 i (hin i hi))
 
-/-- accumulations (`view::cumsum`, `cumprod` = `accumulate`) along a valid axis -/
-theorem accumulate_congr (op : α → α → α) (a b : Arr α) (ax : Nat) (hab : a.Equiv b) (hax : ax < a.shape.length) :
-    (Reduce.accumulate op a (ax : Int)).Equiv (Reduce.accumulate op b (ax : Int)) := by
+/-- accumulations (`view::cumsum`, `cumprod` = `accumulate`) along any axis NumPy accepts (`-dim ≤ axis < dim`,
+    negative axes included): equivalent operands give equivalent results -/
+theorem accumulate_congr (op : α → α → α) (a b : Arr α) (axis : Int) (hab : a.Equiv b)
+    (hv : Reduce.ValidAxis a.shape.length axis) :
+    (Reduce.accumulate op a axis).Equiv (Reduce.accumulate op b axis) := by
   refine ⟨hab.1, fun d hd => ?_⟩
   simp only [Reduce.accumulate] at hd ⊢
   rw [Reduce.accumulateElem_eq_reads, Reduce.accumulateElem_eq_reads, ← hab.1]
-  obtain ⟨r, hrd, hin⟩ := C08.accumulate_inBounds a.shape ax hax d hd
+  obtain ⟨r, hrd, hin⟩ := C08.accumulate_inBounds a.shape axis hv d hd
   rw [hrd]
   simp only [Option.bind_some]
   congr 1
@@ -434,6 +436,8 @@ example : (ufunc2 (· + ·) (Arr.iota [2,3]) (Arr.iota [2])).isNone := by decide
 example : (Reduce.reduce (· + ·) none (Arr.iota [2,3]) (some [1]) true).map (fun u => (u.shape, u.get [1,0])) =
     some ([2,1], some 12) := by decide
 example : Reduce.ValidAxes [2,3].length (some [1]) := by decide
+example : Reduce.ValidAxis [2,3].length (-1) := by decide
+example : (Reduce.accumulate (· + ·) (Arr.iota [2,3]) (-1)).get [1,2] = some 12 := by decide
 example : (ufunc3 (fun c x y => if c = 0 then y else x) (Arr.iota [3]) (Arr.iota [2,3]) (Arr.iota [1])).map
     (fun u => (u.shape, u.get [1,0], u.get [1,2])) = some ([2,3], some 0, some 5) := by decide
 
